@@ -37,7 +37,7 @@ CLAUSES = [
 MC_ACTIONS = ('Begin', 'DoStepFwd', 'DoStepBack', 'DoStepFwdTop', 'DoStepBackTop', 'DoNext', 'DoPrev', 'DoNextChild',
               'DoPrevChild', 'Finish', 'GenBegin', 'GenNext', 'GenFinish', 'GenFinishUnfilteredSelf', 'GenClose')
 
-NJVM = 14
+NJVM = 12
 BATCH_COST = 1_200_000   # ~ 8-10 k nodes of typical programs per TLC batch
 
 
@@ -136,12 +136,12 @@ def build_specs(ctx):
 # recording (processes) and validation (JVMs)
 
 def _shard(args):
-    specs, = args
+    specs, light = args
     from harness import c14_rec
     traces, skipped = [], []
     for tid, mode, src, pseed, label in specs:
         try:
-            traces.append(c14_rec.record(src, mode, pseed, tid))
+            traces.append(c14_rec.record(src, mode, pseed, tid, light=light))
         except c14_rec.OracleError as e:
             skipped.append((tid, label, 'oracle: ' + str(e)))
         except (SyntaxError, RecursionError) as e:   # pfst refused to parse the input: not a traversal question
@@ -149,18 +149,35 @@ def _shard(args):
     return traces, skipped
 
 
-def record_all(ctx, specs, nproc=15):
+NPROC = 15
+CHUNK_NODES = 25000   # programs are recorded, validated and dropped chunk by chunk (bounded memory)
+
+
+def record_all(ctx, specs, pool=None, nproc=NPROC):
     order = sorted(specs, key=lambda s: -len(s[2]))
-    shards = [(order[k::nproc],) for k in range(nproc)]
+    shards = [(order[k::nproc], ctx.quick) for k in range(nproc)]
     shards = [s for s in shards if s[0]]
-    if len(specs) < 8:
+    if pool is None:
         res = [_shard(s) for s in shards]
     else:
-        with mp.get_context('fork').Pool(len(shards)) as pool:
-            res = pool.map(_shard, shards)
+        res = pool.map(_shard, shards)
     traces = [t for r in res for t in r[0]]
     skipped = [s for r in res for s in r[1]]
     return traces, skipped
+
+
+def chunks_of(specs, limit=CHUNK_NODES):
+    out, cur, tot = [], [], 0
+    for s in specs:
+        k = max(1, _nodes(s[2], s[1] if s[1] in ('exec', 'eval', 'single') else 'exec'))
+        if cur and tot + k > limit:
+            out.append(cur)
+            cur, tot = [], 0
+        cur.append(s)
+        tot += k
+    if cur:
+        out.append(cur)
+    return out
 
 
 def _cost(t):
@@ -179,7 +196,7 @@ def validate_all(ctx, traces, njvm=NJVM):
     out = {}
 
     def one(b):
-        return ctx.validate({'traces': b[1]}, module='WalkTrace', heap='3g')
+        return ctx.validate({'traces': b[1]}, module='WalkTrace', heap='2g')
 
     with cf.ThreadPoolExecutor(max_workers=min(n, njvm)) as ex:
         for verd in ex.map(one, [b for b in bins if b[1]]):
@@ -271,25 +288,34 @@ def run(ctx):
     ]
     from checks import c14_gen
     specs = build_specs(ctx)
-    traces, skipped = record_all(ctx, specs)   # (fork before any thread is started)
+    chunks = chunks_of(specs)
+    pool = mp.get_context('fork').Pool(NPROC)   # forked before any thread is started, reused for every chunk
     # (M) and (G) run next to (V): three independent pipelines, results are only read after all have finished
     side = cf.ThreadPoolExecutor(max_workers=2)
     fm = side.submit(ctx.model, 'WalkMC', 'WalkMC' if ctx.quick else 'WalkMC_thorough', MC_ACTIONS, 8)
     fg = side.submit(c14_gen.run, ctx)
-    ctx.extra['programs'] = len(traces)
-    ctx.extra['skipped_inputs'] = len(skipped)
-    ctx.extra['skipped_examples'] = [s[1:] for s in skipped[:5]]
-    core_skipped = [s for s in skipped if s[1].startswith(('corpus', 'extra'))]
-    if core_skipped:
-        raise common.Machinery(f'oracle could not be built for corpus inputs: {core_skipped[:3]}')
+    nprog, skipped = 0, []
     try:
-        verd = validate_all(ctx, traces)
+        for chunk in chunks:
+            traces, sk = record_all(ctx, chunk, pool)
+            skipped += sk
+            nprog += len(traces)
+            core_skipped = [x for x in sk if x[1].startswith(('corpus', 'extra'))]
+            if core_skipped:
+                raise common.Machinery(f'oracle could not be built for corpus inputs: {core_skipped[:3]}')
+            verd = validate_all(ctx, traces)
+            collect(ctx, chunk, traces, verd)
+            sample(ctx, chunk, traces)
+            del traces, verd
     finally:
+        pool.terminate()
         side.shutdown(wait=True)
     fm.result()
     fg.result()
-    collect(ctx, specs, traces, verd)
-    sample(ctx, specs, traces)
+    ctx.extra['programs'] = nprog
+    ctx.extra['chunks'] = len(chunks)
+    ctx.extra['skipped_inputs'] = len(skipped)
+    ctx.extra['skipped_examples'] = [x[1:] for x in skipped[:5]]
     kinds = ctx.__dict__.get('_c14_kinds', set())
     allk = {n for n, c in vars(ast).items() if isinstance(c, type) and issubclass(c, ast.AST) and not c.__subclasses__()
             and c.__module__ in ('ast', '_ast')}
